@@ -608,3 +608,14 @@ fn test_multiplier() {
     assert_eq!(k, 5);
     assert!((score - 8.8552).abs() < 0.0001);
 }
+
+/// Verification hooks (only with `--cfg yamaquasi_verif`): private state of PrimeSieve.
+#[cfg(yamaquasi_verif)]
+pub mod verif_hooks {
+    use super::*;
+
+    /// Rolling offsets (one per small prime) and number of blocks already returned.
+    pub fn primesieve_state(s: &PrimeSieve) -> (&[u32], usize) {
+        (&s.offsets, s.block_count)
+    }
+}
